@@ -13,10 +13,8 @@ Theorem c10_events_match_writes : forall s o s' rep, Inv s -> op_ok s o = true -
   exists evs, events s' = events s ++ evs /\ writes_match o rep evs.
 Proof. exact step_events. Qed.
 
-(* v5: no incoming packet panics or breaks the bookkeeping.  _partial only because of the contract
-   hypothesis: a CONNACK announcing receive-maximum 0 breaks the invariant (c07_contract_needs_receive_max_ge_1_v5);
-   without that hypothesis what holds is c10_incoming_never_panics_v5 below. *)
-Theorem c10_incoming_total_v5_partial : forall s pk, Client.Inv5.Inv5 s -> Client.Inv5.op_ok5 s (Client.State5.Inc5 pk) = true ->
+(* v5: no incoming packet, CONNACK with any receive-maximum included, panics or breaks the bookkeeping *)
+Theorem c10_incoming_total_v5 : forall s pk, Client.Inv5.Inv5 s ->
   match Client.State5.handle_incoming_packet5 s pk with Ok (s', _) => Client.Inv5.Inv5 s' | Err (s', _) => Client.Inv5.Inv5 s' | Panic _ => False end.
 Proof. exact Client.Inv5.handle_incoming_packet5_inv. Qed.
 
@@ -29,7 +27,7 @@ Proof. exact incoming_never_panics5. Qed.
    PUBCOMP (whatever the reason code), id cleared; PUBREC of a held publish -> PUBREL, or (failure
    reason) the flow ends; unsolicited PUBACK / PUBREC / PUBREL / PUBCOMP (any id up to 65535) -> Err
    with the state unchanged but for the Incoming notification; CONNACK: only the negotiated limit,
-   the allocator and the alias maximum change; server DISCONNECT / client-only packets -> Err. *)
+   the allocator and the alias maximum change, receive-maximum 0 is refused (Err, only the alias maximum taken); server DISCONNECT / client-only packets -> Err. *)
 Theorem c10_incoming_v5 : forall s pk, Client.Inv5.Inv5 s -> incoming_reply_spec5 s pk (handle_incoming_packet5 s pk).
 Proof. exact incoming_flow5. Qed.
 
